@@ -38,7 +38,7 @@ func (o Op) String() string {
 type cs struct {
 	A      []Op   `json:"a"`           // sent by side A (received by B)
 	B      []Op   `json:"b,omitempty"` // sent by side B (both directions at once)
-	Regime string `json:"regime"`      // read regime: all | 1 | 3 | 4096 | dev (all + deviations {1, half})
+	Regime string `json:"regime"`      // read regime: all | 1 | 3 | 4096 | dev (all + deviations {1, half}) | eofdata (last bytes come with io.EOF)
 	P      int    `json:"p"`
 	F      int    `json:"f,omitempty"` // free-switch bound (0 = unbounded, n = at most n-1 non-default free switches)
 	E      int    `json:"e"`
@@ -257,6 +257,7 @@ func system(k cs, w *world) func() {
 		vnet.Reset()
 		w.a, w.b = vnet.Pipe("A", "B")
 		vnet.ReadAlts = regimeAlts(k.Regime)
+		vnet.EOFWithData = k.Regime == "eofdata"
 		var pa, pb *p2p.Conn
 		if k.Transport == "pipe" {
 			w.a, w.b = nil, nil
@@ -543,6 +544,10 @@ func work(ctx *runner.Ctx) {
 				}
 			}
 		}
+	}
+	// 2z. a transport that returns the last bytes of a closed stream together with io.EOF
+	for _, seq := range [][]Op{{{K: "w"}, {K: "s", N: 3}}, {{K: "b"}}, {{K: "d", N: 17}, flush, {K: "l"}}, {{K: "d", N: 65537}, {K: "h"}}} {
+		cases = append(cases, cs{A: seq, Regime: "eofdata", P: 1})
 	}
 	// 3a. duplex use: on each side one thread sends while another receives on the same Conn
 	for _, x := range []Op{{K: "w"}, {K: "d", N: 17}} {
